@@ -47,9 +47,9 @@ func (e *engine) Info() core.Info {
 		QuickRuns: 100000, ThoroughRuns: 4000000, QuickWallS: 60, ThoroughWallS: 1200,
 	}
 	if e.prop == "C11" {
-		in.Rule = "a case is one seeded history (<=400 ops: insert, delete present/absent, intersect queries, over phases grow/churn/drain/drain-all/refill, random branching parameters 2<=min<=max/2, grid or float coordinates, pointer/point/degenerate objects); non-trivial = the tree reached depth>=2 AND at least one delete of a stored object happened on a multi-level tree; distinct = distinct hash of the full operation+result log"
+		in.Rule = "a case is one seeded history (<=400 ops, one run in 300 up to 7000 ops: insert (also of an already stored object), delete present/absent, intersect queries, over phases grow/churn/drain/drain-all/refill, random branching parameters 2<=min<=max/2, grid or float coordinates, pointer/point/degenerate objects); non-trivial = the tree reached depth>=2 AND at least one delete of a stored object happened on a multi-level tree; distinct = distinct hash of the full operation+result log"
 	} else {
-		in.Rule = "a case is one seeded history (<=400 ops, same generator as C11) with nearest-neighbour and k-nearest queries after mutations; non-trivial = at least one NN/kNN query was answered on a tree of depth>=2 that had already seen a delete; distinct = distinct hash of the full operation+result log"
+		in.Rule = "a case is one seeded history (<=400 ops, one run in 300 up to 7000 ops, same generator as C11) with nearest-neighbour and k-nearest queries after mutations; non-trivial = at least one NN/kNN query was answered on a tree of depth>=2 that had already seen a delete; distinct = distinct hash of the full operation+result log"
 	}
 	return in
 }
@@ -73,6 +73,8 @@ type run struct {
 	next                                   int
 	grid                                   int // 0 = float coords, else grid size
 	scale                                  float64
+	bulk                                   bool // long history: structural walk only on every 61st mutation
+	nMut                                   int
 	seenDelete, seenMultiDelete, nnOnMulti bool
 	lastDepth                              int
 	states                                 map[uint64]struct{}
@@ -223,6 +225,15 @@ func (r *run) exec() {
 	if r.max == 50 {
 		budget = 700 // deep trees with the fan-out route uses need more objects
 	}
+	if t.OneIn(300, "cfg-bulk") {
+		// a long history (thousands of objects): three and more levels also
+		// for large fan-outs; the O(n) structural walk runs on every 61st
+		// mutation only (Size, Delete results and queries are still checked
+		// on every operation)
+		r.bulk = true
+		budget = 7000
+		r.res.Probe("bulk-history")
+	}
 	ops := 0
 	r.afterOp("init")
 	for r.res.Viol == nil && r.res.Aborted == "" && ops < budget {
@@ -231,6 +242,12 @@ func (r *run) exec() {
 		n := 1 + t.Choose(40, "phase-len")
 		if phase == 0 && r.max == 50 {
 			n += 60
+		}
+		if r.bulk {
+			n *= 25
+			if phase == 5 {
+				n = 20
+			}
 		}
 		if phase == 3 {
 			n = len(r.model) + 1 // until empty
@@ -271,7 +288,11 @@ func (r *run) exec() {
 				r.query()
 			}
 		}
-		if !t.More(8, "more-phases") {
+		mean := 8
+		if r.bulk {
+			mean = 40
+		}
+		if !t.More(mean, "more-phases") {
 			break
 		}
 	}
@@ -286,6 +307,11 @@ func (r *run) exec() {
 
 func (r *run) insert() {
 	s := r.newObj()
+	if len(r.model) > 0 && r.t.OneIn(12, "reinsert-same-identity") {
+		// the very same object (same pointer / equal point) stored once more
+		s = r.model[r.t.Choose(len(r.model), "reinsert-which")]
+		r.res.Probe("same-object-inserted-again")
+	}
 	r.log.Event("insert " + objStr(s))
 	p, v, st := core.Protect(func() { r.tree.Insert(s.obj) })
 	if p {
@@ -364,12 +390,11 @@ func (r *run) deleteAbsent() {
 	switch {
 	case kind == 0 && len(r.dead) > 0:
 		s = r.dead[r.t.Choose(len(r.dead), "absent-dead")]
-		// a dead Point value may still be stored as an equal value
-		if _, isPt := s.obj.(geom.Point); isPt {
-			for _, m := range r.model {
-				if m.obj == s.obj {
-					return
-				}
+		// a deleted object may still be stored: as an equal Point value, or
+		// because the same object had been inserted more than once
+		for _, m := range r.model {
+			if m.obj == s.obj {
+				return
 			}
 		}
 	case kind == 1 && len(r.model) > 0:
@@ -440,6 +465,21 @@ func (r *run) signature(full bool) uint64 {
 // afterOp checks Size and the structural invariants (C11) and records the
 // shape signature.
 func (r *run) afterOp(op string) {
+	if r.bulk && op != "init" {
+		r.nMut++
+		if r.nMut%61 != 0 {
+			// cheap checks only
+			if r.prop == "C11" {
+				if sz := r.tree.Size(); sz != len(r.model) {
+					r.fail("size-mismatch", "", "after %s: Size()=%d, model holds %d objects", op, sz, len(r.model))
+				}
+			}
+			if d := r.tree.Depth(); d >= 1 {
+				r.lastDepth = d
+			}
+			return
+		}
+	}
 	type nodeInfo struct {
 		env   geom.Bounds
 		n     int
